@@ -25,6 +25,7 @@ OpsContains == {"contains"}
 OpsBBox == {"bbox"}
 OpsMask == {"mask"}
 OpsRotate == {"rotate"}
+OpsModes == {"modes"}
 OpsCB == {"contains", "bbox"}
 N1 == {1}
 NQuick == {1, 2, 3, 5}
@@ -139,6 +140,7 @@ Apply ==
     [] op = "bbox" -> BoxOf(shape, U0)
     [] op = "mask" -> LET s2 == Scale(shape, arg)  u2 == U0 * arg
                       IN [box |-> BoxOf(s2, u2).box, aligned |-> BoxOf(s2, u2).aligned, grid |-> MaskRef(s2, u2, arg)]
+    [] op = "modes" -> [m \in 1..3 |-> Supported(shape, Modes[m])]
     [] op = "rotate" -> [rot |-> Rotate(shape, arg[1], arg[2]), win |-> Answers(shape),
                          area |-> IF shape.k = "compound" THEN <<0, 0, 0>> ELSE Area(shape)]
 
